@@ -129,14 +129,15 @@ def timer_scenario(rng, tier):
     return sim, sent, meta, bad
 
 
-def silent_peer_scenario(rng, passive, idle, keepalive):
+def silent_peer_scenario(rng, passive, idle, keepalive, peer_ka=0, outstanding=False):
     ''' X established against a peer that then falls silent: idle time elapses (SESS_TERM idle-timeout),
     nothing is heard, idle time elapses again: X must end by closing. '''
     from props import c17
     adv = c17.Adversary(rng, passive, {'seg_init': 10, 'idle': idle, 'keepalive': keepalive})
+    adv.peer_keepalive = peer_ka
     x, sim = adv.x, adv.sim
     bad = []
-    if not adv.to_state('established'):
+    if not adv.to_state('await_ack' if outstanding else 'established'):
         return adv, bad
     for phase in (1, 2):
         for _ in range(200):
@@ -288,6 +289,60 @@ def keepalive_vs_idle_scenario(rng, passive, keepalive, idle):
     return adv, bad
 
 
+def keepalive_backpressure_scenario(rng, passive, keepalive):
+    ''' X established with keepalive negotiated to `keepalive` s. A message is queued and the socket does not
+    take it (the peer is not reading) until after the keepalive interval has expired; from then on the peer
+    reads normally and stays silent: X must go on sending a KEEPALIVE every interval. '''
+    from props import c17
+    adv = c17.Adversary(rng, passive, {'seg_init': 100000, 'idle': 0, 'keepalive': keepalive})
+    adv.peer_keepalive = keepalive
+    x, sim = adv.x, adv.sim
+    bad = []
+    if not adv.to_state('established'):
+        return adv, bad
+    adv.drain()
+    sim.send(x, bytes(50000))      # more than one CHUNK: octets stay in the message-level buffer as well
+    # idle sources run, the TX callback only ever hears "would block"
+    for _ in range(20):
+        if x.sources('idle', '_process_queue'):
+            sim.pq(x)
+        elif sim.tx_sources(x):
+            sim.pump(x, 0)
+            break
+    t0 = ts.LOOP.now
+    stalled_until = t0 + keepalive * 1000 + 2000
+    while ts.LOOP.now < stalled_until and not x.closed():
+        dls = [s.deadline for s in x.sources('timeout') if s.deadline is not None]
+        nxt = min(dls + [stalled_until])
+        sim.advance(max(0, nxt - ts.LOOP.now))
+        for t in sim.due_timers(x):
+            sim.timer(x, t)
+            if x.obs[-1].get('escaped'):
+                bad.append(('C14:timer-escape-%s-%s' % (t, x.obs[-1]['escaped']), '%s timer raised %s under back-pressure' % (t, x.obs[-1]['escaped'])))
+                return adv, bad
+        if sim.tx_sources(x):
+            sim.pump(x, 0)
+    adv.drain()                       # the peer reads again
+    last_tx = ts.LOOP.now
+    sent_before = len(x.sock.sent)
+    horizon = ts.LOOP.now + 4 * keepalive * 1000
+    while ts.LOOP.now < horizon and not x.closed():
+        dls = [s.deadline for s in x.sources('timeout') if s.deadline is not None]
+        nxt = min(dls + [ts.LOOP.now + 1000])
+        sim.advance(max(0, nxt - ts.LOOP.now))
+        for t in sim.due_timers(x):
+            sim.timer(x, t)
+        adv.drain()
+        if len(x.sock.sent) > sent_before:
+            sent_before = len(x.sock.sent)
+            last_tx = ts.LOOP.now
+        if ts.LOOP.now - last_tx > keepalive * 1000:
+            bad.append(('C14:keepalive-not-sent', 'nothing written for %d ms (> keepalive %d s) after a keepalive interval had expired while the socket was not writable'
+                        % (ts.LOOP.now - last_tx, keepalive)))
+            break
+    return adv, bad
+
+
 def run(chk):
     chk.prove(MODULE)
     rng, tier = chk.rng, chk.tier
@@ -323,6 +378,25 @@ def run(chk):
                 for (sig, what) in bad:
                     chk.violation(sig, what, {'passive': passive, 'idle': idle, 'keepalive': ka, 'x_cfg': adv.x.model_cfg(), 'x_events': adv.x.events})
                 advs.append((adv, 'silent peer passive=%s idle=%s ka=%s' % (passive, idle, ka)))
+    # silent peer with a keepalive longer than the idle time, and with a transfer still unacknowledged
+    for passive in (False, True):
+        for (idle, ka, outstanding) in ((1, 5, False), (2, 30, False), (3, 0, True), (2, 5, True)):
+            adv, bad = silent_peer_scenario(rng, passive, idle, ka, peer_ka=ka, outstanding=outstanding)
+            chk.case({'silent_peer': True, 'passive': passive, 'idle': idle, 'keepalive': ka, 'outstanding': outstanding})
+            chk.count('silent-peer-ka' if not outstanding else 'silent-peer-outstanding')
+            for (sig, what) in bad:
+                chk.violation(sig, what, {'passive': passive, 'idle': idle, 'keepalive': ka, 'outstanding': outstanding,
+                                          'x_cfg': adv.x.model_cfg(), 'x_events': adv.x.events})
+            advs.append((adv, 'silent peer passive=%s idle=%s ka=%s outstanding=%s' % (passive, idle, ka, outstanding)))
+    # keepalive interval expiring while the socket is not writable
+    for passive in (False, True):
+        for ka in (2, 10):
+            adv, bad = keepalive_backpressure_scenario(rng, passive, ka)
+            chk.case({'keepalive_backpressure': True, 'passive': passive, 'keepalive': ka})
+            chk.count('keepalive-backpressure')
+            for (sig, what) in bad:
+                chk.violation(sig, what, {'passive': passive, 'keepalive': ka, 'x_cfg': adv.x.model_cfg(), 'x_events': adv.x.events})
+            advs.append((adv, 'keepalive back-pressure passive=%s ka=%s' % (passive, ka)))
     # chatty peer: inbound traffic must not postpone X's own KEEPALIVE
     for passive in (False, True):
         for (ka, period) in ((2, 900), (2, 1999), (5, 4000), (3, 10000)):
